@@ -977,8 +977,7 @@ func runSeq(res *core.Result, seed int64, verbose bool) {
 				call{Op: "query", Labels: map[string]string{"name": c.Name, "status": "deployed"}},
 				call{Op: "query", Labels: map[string]string{"status": "superseded"}},
 				call{Op: "query", Labels: map[string]string{"status": "pending-upgrade"}},
-				call{Op: "history", Name: c.Name}, call{Op: "deployed", Name: c.Name}, call{Op: "deployedall", Name: c.Name}, call{Op: "last", Name: c.Name},
-				call{Op: "list", Filter: "name=" + c.Name})
+				call{Op: "history", Name: c.Name}, call{Op: "deployed", Name: c.Name}, call{Op: "last", Name: c.Name})
 			s.step = i + 1
 			for _, f := range follow {
 				s.countMatches(f)
